@@ -2167,7 +2167,7 @@ def _plan(prop, tier, seed):
             for sd in seeds[lang] + extra[lang]:
                 items.append((prop, 'generated', lang, sd, [dict(steer=s) for s in gsteers], False))
     else:
-        hr = [1000 + i for i in range(4 if quick else 6)] + [rnd.randrange(1 << 30) for _ in range(2 if quick else 3)]
+        hr = [1000 + i for i in range(4 if quick else 6)] + [rnd.randrange(1 << 30) for _ in range(1 if quick else 3)]
         gr = [1000 + i for i in range(2 if quick else 4)] + [rnd.randrange(1 << 30) for _ in range(1 if quick else 2)]
         for lang in LANGS:
             for h in hand:
